@@ -487,6 +487,42 @@ UNKNOWN_TAGS = (("KEYSOUNDS", ""), ("ATTACKS", ""), ("VERSION", "0.83"), ("ORIGI
 TIMING_TAGS = ("OFFSET", "BPMS", "STOPS")
 
 
+# ----------------------------------------------------------------------------- dimensions 14 / 16 / 17 / 18 of the random files
+# (14) every header tag and every #NOTES field present, non-empty, not a default, and different from every sibling of its type
+D_TEXTS = ("Alpha Title", "Beta Sub", "Gamma Artist", "Delta tt", "Epsilon st", "Zeta at", "Eta Genre", "Theta Credit", "iota-bn.png", "kappa-bg.jpg", "lambda.lrc", "mu-cd.png", "nu.ogg")
+D_TEXT_TAGS = ("TITLE", "SUBTITLE", "ARTIST", "TITLETRANSLIT", "SUBTITLETRANSLIT", "ARTISTTRANSLIT", "GENRE", "CREDIT", "BANNER", "BACKGROUND", "LYRICSPATH", "CDTITLE", "MUSIC")
+D_CHANGES = ("0.000=bg one.avi=1.000=1=0=0", "4.000=fg two.png=1.000=0=0=1", "8.000=three.mpg=0.500=0=1=0,16.000=four.png=1.000=1=1=1")
+D_DISPLAY = ("180", "95.5", "150:300", "*")
+D_SECONDS = ("1.5", "68.502", "297.853", "16.457", "26.0", "3.25")
+D_RADARS = ("0.1,0.2,0.3,0.4,0.5", "0.733,0.5,0.125,0.05,0.9", "0.9,0.8,0.7,0.6,0.55", "0.15,0.25,0.35,0.45,0.65", "0.11,0.22,0.33,0.44,0.66")
+D_DESCS = ("first desc", "second", "K. Ohta 3", "v4 (final)", "fifth e")
+# (16) texts that are markers elsewhere in the format (tag names, a beat=bpm pair, YES / NO, '*', a chart type, a difficulty) as ordinary values
+SPECIAL_SM = ("NOTES", "BPMS", "STOPS", "OFFSET", "0=120", "0.000=120.000", "YES", "NO", "*", "dance-single", "Edit", "0", "-1", "0000", "1000")
+# (18) measures whose rows are NOT on the 1/48-beat grid of the tempo changes (1/5, 1/7, 1/8, 1/9, 1/10, 1/16, 1/32 beat and finer)
+ROW_EXTRA = (20, 28, 32, 36, 40, 64, 96, 128, 384)
+
+
+def distinct_fields(rng, header, charts):
+    """every known tag present once with a value of its own (in place; tags that are missing are inserted anywhere)"""
+    want = dict(zip(D_TEXT_TAGS, rng.sample(D_TEXTS, len(D_TEXT_TAGS))))
+    bg, fg = rng.sample(D_CHANGES, 2)
+    off, ss, sl = rng.sample(D_SECONDS, 3)
+    want.update(BGCHANGES=bg, FGCHANGES=fg, DISPLAYBPM=rng.choice(D_DISPLAY), SAMPLESTART=ss, SAMPLELENGTH=sl, SELECTABLE="NO")
+    names = [x[0] for x in header]
+    for x in header:
+        if x[0] in want:
+            x[1] = want[x[0]]
+        elif x[0] == "OFFSET":
+            x[1] = rng.choice(("", "-")) + off
+    for tag, val in want.items():
+        if tag not in names:
+            header.insert(rng.randrange(len(header) + 1), [tag, val])
+    diffs, radars, descs = rng.sample(DIFFS, min(len(charts), len(DIFFS))), rng.sample(D_RADARS, min(len(charts), len(D_RADARS))), rng.sample(D_DESCS, min(len(charts), len(D_DESCS)))
+    meters = rng.sample(range(2, 30), len(charts))
+    for i, ch in enumerate(charts):
+        ch.update(desc=descs[i % len(descs)], diff=diffs[i % len(diffs)], meter=meters[i], radar=radars[i % len(radars)])
+
+
 def dec_str(fr, places=9):
     """Decimal numeral of a Fraction: exact when it terminates, else rounded to `places` decimals."""
     fr = Fraction(fr)
@@ -695,7 +731,7 @@ def gen_spec(rng, family="plain", types=None):
     if rich:
         x = rng.random()
         n_charts = 0 if x < 0.03 else rng.choice((4, 5)) if x < 0.08 else n_charts
-    charts = []
+    charts, dims = [], []
     for _ in range(n_charts):
         typ = rng.choice(types) if types else None
         kw = {}
@@ -707,6 +743,9 @@ def gen_spec(rng, family="plain", types=None):
                 kw["empty"] = True  # a chart without any object (also in the middle of a file)
             elif x < 0.25:
                 kw["symbols"] = rng.choice(("1", "M", "L", "F", "K", "2", "4", "24", "1M", "LK", "F2"))  # one or two kinds only
+        if rich and rng.random() < 0.2:
+            kw["row_counts"] = [rng.choice(ROW_COUNTS + ROW_EXTRA) for _ in range(rng.randrange(1, 5))]  # (18)
+            dims.append("rows_off_the_48_grid")
         ch = gen_chart(rng, typ=typ, **kw)
         if rich:
             if rng.random() < 0.2:
@@ -718,9 +757,28 @@ def gen_spec(rng, family="plain", types=None):
         charts.append(ch)
     if rich and len(charts) >= 2 and rng.random() < 0.1:
         charts[-1] = dict(charts[0])  # the same chart twice (type, difficulty and content)
+    lead = 0
+    if rich and charts:
+        # (17) which kind of element is first: an object ON the first tempo point (beat 0) / tempo changes BEFORE the first object of every chart
+        x = rng.random()
+        if x < 0.12:
+            for ch in charts:
+                row0 = ch["measures"][0][0]
+                if set(row0) == {"0"}:
+                    c = rng.randrange(len(row0))
+                    ch["measures"][0][0] = row0[:c] + rng.choice("1MLFK") + row0[c + 1:]
+            dims.append("object_on_beat_0")
+        elif x < 0.24:
+            lead = rng.choice((1, 1, 2))
+            for ch in charts:
+                keys = len(ch["measures"][0][0])
+                ch["measures"] = [["0" * keys] * rng.choice((4, 8)) for _ in range(lead)] + ch["measures"]
+            dims.append("tempo_changes_before_the_first_object")
     total = 4 * max([len(c["measures"]) for c in charts] or [2])
     n_extra = rng.choice((0, 1, 1, 2, 2, 3, 4))
     also, pool = [], BPM_POOL
+    if lead:
+        also += rng.sample((1, 47, 48, 96, 97, 144, 191, 192), rng.choice((1, 2)))[: 2 if lead == 2 else 1]
     if rich:
         if charts and rng.random() < 0.15:
             c = rng.choice(charts)
@@ -731,11 +789,28 @@ def gen_spec(rng, family="plain", types=None):
             pool = BPM_POOL + BPM_EXTRA
     header, tail = gen_header(rng, stops_tag=family != "no_stops_tag"), []
     if rich:
-        header, tail = enrich_header(rng, header, family, len(charts))
+        if rng.random() < 0.15:
+            distinct_fields(rng, header, charts)  # (14); enrich_header may still omit / move / re-word some of the tags
+            dims.append("all_fields_distinct")
+            if rng.random() < 0.5:
+                header, tail = enrich_header(rng, header, family, len(charts))
+            elif family == "no_offset_tag":
+                header = [x for x in header if x[0] != "OFFSET"]
+        else:
+            header, tail = enrich_header(rng, header, family, len(charts))
+        if rng.random() < 0.1:  # (16)
+            cand = [x for x in header + tail if x[0] in D_TEXT_TAGS]
+            for x in rng.sample(cand, min(len(cand), 2)):
+                x[1] = rng.choice(SPECIAL_SM)
+            if charts and rng.random() < 0.5:
+                rng.choice(charts)["desc"] = rng.choice(SPECIAL_SM)
+            dims.append("marker_text_as_value")
     style = gen_style(rng, family, charts)
     if rich:
         style = enrich_style(rng, style, family)
     spec = dict(header=header, bpms=gen_tempo(rng, n_extra, total, "mixed", also, pool), charts=charts, style=style)
+    if dims:
+        spec["dims"] = dims
     if tail:
         spec["header_tail"] = tail
     if len(spec["bpms"]) > 2 and rng.random() < 0.25:
@@ -1105,7 +1180,11 @@ def sm_read_random(rep):
         "every 10th file also through read(list of lines), SMMapSet().read, read_file(str), read_file(Path), read_file of the CRLF file; 12% followed by the read of another file, first result compared again; "
         "10% read a SECOND time after the first result was edited in place (offsets, columns, lengths, tempo, header fields, chart list), 15% read through read_file from a path that held another file "
         "(the text plus six charts / a 15-line file / the case's other file), itself read first: the second result must satisfy every clause for the text; "
-        f"chart types: all {len(SM_KEYS_ALL)} rows of StepMania 5's StepsType table; bpm 0.05 .. 65536, offsets -3600.5 .. 86400 s, meters -1 and 2^31-1"
+        f"chart types: all {len(SM_KEYS_ALL)} rows of StepMania 5's StepsType table; bpm 0.05 .. 65536, offsets -3600.5 .. 86400 s, meters -1 and 2^31-1; "
+        f"(14) 15% of the files carry EVERY header tag ({len(D_TEXT_TAGS)} text tags, #BGCHANGES, #FGCHANGES, #DISPLAYBPM incl. the 'lo:hi' form, #SAMPLESTART, #SAMPLELENGTH, #SELECTABLE:NO, #OFFSET) with a non-empty value that differs from every other tag's, "
+        "and give every chart its own description / difficulty / meter / five-different-values radar; (16) 10% have a marker of the format (NOTES, BPMS, 0=120, YES, NO, *, a chart type, a difficulty, 1000 ...) as the ordinary value of 1-2 text tags / a description; "
+        "(17) 12% have an object of every chart ON beat 0 (the first tempo point), 12% start every chart with 1-2 empty measures and 1-2 tempo changes inside them (tempo changes before the first object); "
+        f"(18) 20% of the charts draw their measures' row counts also from {list(ROW_EXTRA)} (rows that are not on the 1/48-beat grid of the tempo changes: 1/5, 1/7, 1/8, 1/9, 1/10, 1/16, 1/32, 1/96 beat); spec['dims'] names what was applied"
     )
     rep.rule = "a case is one file; non-trivial when it has a tempo change, a second chart or at least 4 different symbols"
     fams, agains = {}, {}
